@@ -1,10 +1,10 @@
 from common import COMMON_TRUST
 
 PROP = {
-    "generated": ["CoopConsts", "ConduitSrc"],
+    "generated": ["CoopConsts", "ConduitSrc", "CoopSrc"],
     "lean_modules": ["SwimVerif.Model.Conduit", "SwimVerif.Model.ConduitMon", "SwimVerif.Proofs.Conduit",
                      "SwimVerif.Model.ConduitProg", "SwimVerif.Proofs.ConduitProg",
-                     "SwimVerif.Generated.CoopConsts", "SwimVerif.Generated.ConduitSrc"],
+                     "SwimVerif.Generated.CoopConsts", "SwimVerif.Generated.ConduitSrc", "SwimVerif.Generated.CoopSrc"],
     "engines": [
         # real threads: closing either half while the other side is registering its waker (below the model's atomic steps)
         {"name": "close-race", "crate": "core", "bin": "sv-c12s", "machine": "c12s", "modes": ["monitor"],
@@ -28,7 +28,8 @@ PROP = {
                   "wrappers of both halves and of both Drop impls is regenerated from channel/mod.rs on every run "
                   "(Generated/ConduitSrc.lean) and C12_source_is_model proves that executing it is exactly the model's step, "
                   "for every state and argument; C12_source_single_critical_section proves from the same programs that each "
-                  "operation takes the mutex at most once and touches the shared state only under it.",
+                  "operation takes the mutex at most once and touches the shared state only under it; coop::consume_budget and "
+                  "track_progress are translated likewise (Generated/CoopSrc.lean, C12_source_coop_is_model).",
     "level_note": "Trusted: Lean kernel, compiled driver, harness, the translator's vocabulary tables; modelled not "
                   "verified: the mutex (serialises critical sections), Waker, BytesMut. That one poll is one critical "
                   "section is extracted from the source and proved (C12_source_single_critical_section); real "
